@@ -418,7 +418,9 @@ def gen_doc(rng, hostile=0.5, eval_atoms=0.05, max_el=25, root=None, features=No
         attrs = ""
         if root_attrs and rng.random() < 0.3:
             attrs = " " + rng.choice(['width="100"', 'height="50mm"', 'viewBox="0 0 50 50"', 'width="10cm" height="5cm"',
-                                      'id="root"', 'class="big"', 'style="background: white"', 'data-x="&amp;"'])
+                                      'id="root"', 'class="big"', 'style="background: white"', 'data-x="&amp;"',
+                                      'xmlns:xlink="http://www.w3.org/1999/xlink"', 'xmlns:xlink="http://www.w3.org/1999/xlink" width="40"',
+                                      'xmlns:dc="http://purl.org/dc/elements/1.1/" id="r2"'])
             g.feats.add("root.attrs")
         text = pre + "<svg%s>\n" % attrs + "\n".join(lines) + "\n</svg>\n" + post
         g.feats.add("root.svg")
